@@ -5,6 +5,7 @@ package c14
 import (
 	"strings"
 	"unicode"
+	"unicode/utf8"
 
 	"golang.org/x/text/unicode/norm"
 	"verifkit/prng"
@@ -136,23 +137,186 @@ var passwordPool = []string{
 	"", "pw-one", "Pw-One", "pw-one ", "pw-on", "pw-one1", " ",
 	"пароль-ü-密", "пароль-ü-密!", "pässwörd",
 	pw71, pw72, pw72b, pw73, pw200, pwL,
+	// non-ASCII at the 72 byte boundary: bytes and characters differ
+	strings.Repeat("é", 36),         // 72 bytes, 36 characters
+	strings.Repeat("密", 24),         // 72 bytes, 24 characters
+	strings.Repeat("😀", 18),         // 72 bytes, 18 characters
+	strings.Repeat("é", 35) + "a",   // 71 bytes
+	pw72[:71] + "é",                 // 73 bytes, a character straddles byte 72
+	pw72[:70] + "密",                 // 73 bytes, straddling
+	pw72[:69] + "😀",                 // 73 bytes, straddling
+	strings.Repeat("é", 72),         // 72 characters, 144 bytes
+	strings.Repeat("aé", 36) + "b",  // 109 bytes, 73 characters
+}
+
+// Boundary family: passwords whose BYTE length is 70..74 or 140..146, built
+// from 1-, 2-, 3- and 4-byte characters, optionally with one character
+// straddling byte 72 (bcrypt's input limit is 72 bytes, not characters).
+var widthChars = [5][]string{
+	1: {"a", "Z", "7", "-", "q"},
+	2: {"é", "ж", "ω", "ü"},
+	3: {"密", "€", "ア", "ह"},
+	4: {"😀", "𝄞", "𐍈"},
+}
+
+var boundaryLens = []int{70, 71, 72, 72, 72, 72, 73, 73, 74, 140, 141, 142, 143, 144, 144, 145, 146}
+
+func fillChars(p *prng.R, b *strings.Builder, cur, target int, widths []int) int {
+	for cur < target {
+		w := prng.Pick(p, widths)
+		if cur+w > target {
+			w = 1
+		}
+		b.WriteString(prng.Pick(p, widthChars[w]))
+		cur += w
+	}
+	return cur
+}
+
+// boundaryPassword returns a password of one of the boundary byte lengths;
+// maxLen > 0 restricts the choice (bcrypt refuses more than 72 bytes when a
+// password is set).
+func boundaryPassword(p *prng.R, maxLen int) string {
+	L := prng.Pick(p, boundaryLens)
+	for maxLen > 0 && L > maxLen {
+		L = prng.Pick(p, boundaryLens)
+	}
+	widths := prng.Pick(p, [][]int{{1, 2, 3, 4}, {2}, {3}, {4}, {1, 2}, {2, 3, 4}, {1}})
+	var b strings.Builder
+	cur := 0
+	if L >= 73 && p.Bool() {
+		// one character of width w starts at byte 72-k (0 < k < w) and so
+		// straddles the 72 byte boundary
+		w := p.Range(2, 4)
+		k := p.Range(1, w-1)
+		if 72-k+w <= L {
+			cur = fillChars(p, &b, cur, 72-k, widths)
+			b.WriteString(prng.Pick(p, widthChars[w]))
+			cur += w
+		}
+	}
+	fillChars(p, &b, cur, L, widths)
+	return b.String()
+}
+
+// genPassword is the password of a create / set-password operation.
+func genPassword(p *prng.R, bcryptScheme bool) string {
+	if p.Chance(3, 5) {
+		return prng.Pick(p, passwordPool)
+	}
+	if bcryptScheme && p.Chance(4, 5) {
+		return boundaryPassword(p, 72)
+	}
+	return boundaryPassword(p, 0)
+}
+
+func runeLen(s string) int { return utf8.RuneCountInString(s) }
+
+// truncRunes returns the first n characters of s.
+func truncRunes(s string, n int) string {
+	i := 0
+	for j := range s {
+		if i == n {
+			return s[:j]
+		}
+		i++
+	}
+	return s
+}
+
+// truncBytesAtRune returns the longest prefix of at most n bytes that ends at
+// a character boundary.
+func truncBytesAtRune(s string, n int) string {
+	if len(s) <= n {
+		return s
+	}
+	for n > 0 && !utf8.RuneStart(s[n]) {
+		n--
+	}
+	return s[:n]
+}
+
+// probePassword derives a near miss of the current password: extensions and
+// truncations at byte and at character granularity. The result may be invalid
+// UTF-8 (cut inside a character); such strings are only ever *supplied*, never
+// set.
+func probePassword(p *prng.R, cur string) (string, string) {
+	switch p.Intn(14) {
+	case 0:
+		return cur + "x", "ext+1byte"
+	case 1:
+		return cur + " ", "ext+space"
+	case 2:
+		return cur + prng.Pick(p, []string{"é", "密", "😀"}), "ext+1char"
+	case 3:
+		if n := runeLen(cur); n < 72 {
+			return cur + strings.Repeat(prng.Pick(p, []string{"é", "密", "😀"}), 72-n), "ext-to-72-chars-multibyte"
+		}
+	case 4:
+		if n := runeLen(cur); n < 72 {
+			return cur + strings.Repeat("x", 72-n), "ext-to-72-chars-ascii"
+		}
+	case 5:
+		if len(cur) < 72 {
+			return cur + strings.Repeat("x", 72-len(cur)), "ext-to-72-bytes"
+		}
+	case 6:
+		return cur + strings.Repeat("z", 130), "ext+130bytes"
+	case 7:
+		if len(cur) > 0 {
+			return cur[:len(cur)-1], "trunc-1byte"
+		}
+	case 8:
+		if n := runeLen(cur); n > 0 {
+			return truncRunes(cur, n-1), "trunc-1char"
+		}
+	case 9:
+		if len(cur) > 72 {
+			return cur[:72], "trunc-to-72-bytes"
+		}
+	case 10:
+		if len(cur) > 72 {
+			return truncBytesAtRune(cur, 72), "trunc-to-72-bytes-char-boundary"
+		}
+	case 11:
+		if runeLen(cur) > 72 {
+			return truncRunes(cur, 72), "trunc-to-72-chars"
+		}
+	case 12:
+		if len(cur) > 71 {
+			return cur[:71], "trunc-to-71-bytes"
+		}
+	case 13:
+		if s := strings.ToUpper(cur); s != cur {
+			return s, "case-variant"
+		}
+	}
+	return cur + "x", "ext+1byte"
 }
 
 func pwKind(pw string) string {
+	ascii := true
+	for i := 0; i < len(pw); i++ {
+		if pw[i] >= 0x80 {
+			ascii = false
+		}
+	}
+	pre := ""
+	if !ascii {
+		pre = "nonascii-"
+	}
 	switch {
 	case pw == "":
 		return "empty"
 	case len(pw) > 72:
-		return "gt72"
+		return pre + "gt72"
 	case len(pw) == 72:
-		return "len72"
-	case len(pw) == 71:
-		return "len71"
+		return pre + "len72"
+	case len(pw) >= 70:
+		return pre + "len70-71"
 	}
-	for i := 0; i < len(pw); i++ {
-		if pw[i] >= 0x80 {
-			return "nonascii"
-		}
+	if !ascii {
+		return "nonascii"
 	}
 	return "short"
 }
@@ -161,7 +325,14 @@ func pwKind(pw string) string {
 func relation(supplied, current string, stale, others []string) string {
 	switch {
 	case len(current) >= 72 && len(supplied) > len(current) && strings.HasPrefix(supplied, current):
+		if runeLen(supplied) <= 72 {
+			return "extension-beyond-72-bytes/within-72-characters"
+		}
 		return "extension-beyond-72-bytes"
+	case len(current) > 72 && supplied == current[:72]:
+		return "first-72-bytes-of-current"
+	case runeLen(current) > 72 && supplied == truncRunes(current, 72):
+		return "first-72-characters-of-current"
 	case len(supplied) > 72 && len(current) > 72 && supplied[:72] == current[:72]:
 		return "same-first-72-bytes"
 	case len(supplied) > len(current) && strings.HasPrefix(supplied, current):
